@@ -354,35 +354,20 @@ Qed.
 (* ---- what the source says (Gen.FactsC02 is regenerated from /repo on every run) ---- *)
 Lemma source_facts :
   grpc_content_type = s2z "application/grpc" /\ proto_content_subtype = s2z "proto" /\
-  content_type_statuses = [2; 2] /\ grpc_status_statuses = [2; 2] /\
-  grpc_status_caught = s2z "ValueError" /\ details_caught = s2z "Exception" /\
-  raise_for_grpc_status_test = s2z "status is not Status.OK" /\
-  sk_recv_initial_metadata = map s2z
-    ["recv_headers"; "_raise_for_status"; "_raise_for_content_type"; "recv_initial_metadata";
-     "_process_grpc_status"; "decode_metadata"; "recv_trailing_metadata"; "_raise_for_grpc_status";
-     "decode_metadata"; "recv_initial_metadata"]%string /\
-  sk_recv_message = map s2z ["recv_initial_metadata"; "recv_message"; "recv_message"]%string /\
-  sk_recv_trailing_metadata = map s2z
-    ["recv_trailers"; "_process_grpc_status"; "decode_metadata"; "recv_trailing_metadata";
-     "_raise_for_grpc_status"]%string /\
-  sk_maybe_finish = map s2z ["recv_initial_metadata"; "recv_trailing_metadata"]%string /\
-  sk_maybe_raise = map s2z
-    ["_raise_for_status"; "_process_grpc_status"; "_raise_for_grpc_status"; "_process_grpc_status";
-     "_raise_for_grpc_status"]%string /\
-  sk_aexit = map s2z
-    ["_maybe_finish"; "_maybe_raise"; "assert:exc_val is not None"; "reset_nowait"; "_release_stream";
-     "__exit__"]%string /\
-  sk_call_uu = map s2z ["open"; "send_message"; "recv_message"; "assert:reply is not None"]%string /\
-  sk_call_us = map s2z ["open"; "send_message"; "__aiter__"]%string /\
-  sk_call_su = map s2z
-    ["open"; "send_message"; "send_message"; "send_request"; "recv_message";
-     "assert:reply is not None"]%string /\
-  sk_call_ss = map s2z ["open"; "send_message"; "send_message"; "send_request"; "__aiter__"]%string /\
-  maybe_finish_test = s2z "not self._cancel_done" /\
-  aexit_tests = map s2z
-    ["not self._send_request_done"; "exc_val is None"; "isinstance(exc_val, StreamTerminatedError)";
-     "reraise"; "self._stream.closable"; "self._wrapper_ctx is not None"; "exc_val is None"]%string /\
-  aexit_caught = [s2z "Exception"].
+  non200_default_status = 2 /\ content_type_status = 2 /\ grpc_status_error_status = 2 /\
+  (* recv_initial_metadata consults :status, then content-type, then grpc-status (+ message, details) *)
+  ri_keys = map s2z [":status"; "content-type"; "grpc-status"; "grpc-message"; "grpc-status-details-bin"]%string /\
+  rt_keys = map s2z ["grpc-status"; "grpc-message"; "grpc-status-details-bin"]%string /\
+  (* context exit: both implicit receives, only StreamTerminatedError is upgraded, from :status then grpc-status *)
+  exit_events = map s2z
+    ["call recv_initial_metadata"; "call recv_trailing_metadata"; "isinstance StreamTerminatedError";
+     "key :status"; "key grpc-status"; "key grpc-message"; "key grpc-status-details-bin"]%string /\
+  rt_caught = map s2z ["Exception"; "ValueError"]%string /\
+  exit_caught = map s2z ["Exception"; "ValueError"]%string /\
+  call_uu = map s2z ["open"; "send_message"; "recv_message"; "assert-not-none"]%string /\
+  call_us = map s2z ["open"; "send_message"; "aiter"]%string /\
+  call_su = map s2z ["open"; "send_message"; "send_request"; "recv_message"; "assert-not-none"]%string /\
+  call_ss = map s2z ["open"; "send_message"; "send_request"; "aiter"]%string.
 Proof. repeat split; vm_compute; reflexivity. Qed.
 
 (* ================================================================================================ *)
